@@ -67,6 +67,10 @@ pub enum StubScn {
         /// simulated time each attempt takes (so that attempts can end after the deadline)
         #[serde(default)]
         attempt_ms: u64,
+        /// before the call that is judged, another call through the same stub is started, polled
+        /// once (its first attempt is pending in the backend) and dropped
+        #[serde(default)]
+        abandon_first: bool,
     },
 }
 
@@ -149,9 +153,17 @@ pub fn gen(rng: &mut Rng) -> StubScn {
                 latency_yields: rng.below(3) as u32,
                 deadline_ms: *rng.pick(&[0u64, 5, 5, 20, 10_000]),
                 attempt_ms: *rng.pick(&[0u64, 0, 3, 8, 30]),
+                abandon_first: rng.chance(250),
             }
         }
     }
+}
+
+/// Trace id (folded to 62 bits) and sampling decision in one number.
+fn trace_fold(t: &tarpc::trace::Context) -> i64 {
+    let id = u128::from(t.trace_id);
+    let folded = ((id >> 64) as u64 ^ id as u64) >> 2;
+    ((folded << 1) | (t.sampling_decision == tarpc::trace::SamplingDecision::Sampled) as u64) as i64
 }
 
 fn viol(rule: &str, tags: &[&str], detail: String) -> Violation {
@@ -275,7 +287,7 @@ impl Stub for RetryBackendRef {
         self.ptrs.borrow_mut().push(Arc::as_ptr(&req) as usize);
         self.sim.log(EvKind::Note { what: "retry_backend_call", a: n as i64, b: *req as i64 });
         self.sim.log(EvKind::Note { what: "retry_ctx_deadline", a: n as i64, b: self.sim.ms_of_local(ctx.deadline) });
-        self.sim.log(EvKind::Note { what: "retry_ctx_trace", a: n as i64, b: (u128::from(ctx.trace_context.trace_id) as u64 >> 1) as i64 });
+        self.sim.log(EvKind::Note { what: "retry_ctx_trace", a: n as i64, b: trace_fold(&ctx.trace_context) });
         for _ in 0..self.yields {
             yield_once().await;
         }
@@ -371,7 +383,8 @@ pub fn run(scn: &StubScn, tape: Tape) -> RunOutput {
                         }
                     }));
                 }
-                StubScn::Retry { results, max_attempts, retry_ok_below, latency_yields, deadline_ms, attempt_ms } => {
+                StubScn::Retry { results, max_attempts, retry_ok_below, latency_yields, deadline_ms, attempt_ms, abandon_first } => {
+                    let latency_yields = if abandon_first { latency_yields.max(1) } else { latency_yields };
                     let be = RetryBackendRef(Rc::new(RetryBackend { sim: sim.clone(), results, attempt: RefCell::new(0), ptrs: RefCell::new(Vec::new()), yields: latency_yields, sleep_ms: attempt_ms }));
                     let sim_p = sim.clone();
                     let policy = move |r: &Result<u64, RpcError>, attempt: u32| {
@@ -386,10 +399,21 @@ pub fn run(scn: &StubScn, tape: Tape) -> RunOutput {
                     let retry = Retry::new(be.clone(), policy);
                     let (sim_t, extra_t) = (sim.clone(), extra.clone());
                     tasks.push(sim.spawn("retry_caller", async move {
+                        if abandon_first {
+                            let mut fut = Box::pin(retry.call(context::current(), 41u64));
+                            let _ = futures::poll!(fut.as_mut());
+                            drop(fut);
+                            sim_t.count("fault.stub_call_abandoned");
+                            sim_t.log(EvKind::Note { what: "retry_first_abandoned", a: 0, b: 0 });
+                            be.ptrs.borrow_mut().clear();
+                        }
                         let mut ctx = context::current();
+                        // a caller-supplied trace context that differs from the default one
+                        ctx.trace_context.trace_id = tarpc::trace::TraceId::from(0x7a5c_0000_0000_0000_0000_0000_0000_0042u128);
+                        ctx.trace_context.sampling_decision = tarpc::trace::SamplingDecision::Sampled;
                         ctx.deadline = sim_t.instant_at(sim_t.now_ms() + deadline_ms as i64);
                         sim_t.log(EvKind::Note { what: "retry_caller_deadline", a: 0, b: sim_t.ms_of_local(ctx.deadline) });
-                        sim_t.log(EvKind::Note { what: "retry_caller_trace", a: 0, b: (u128::from(ctx.trace_context.trace_id) as u64 >> 1) as i64 });
+                        sim_t.log(EvKind::Note { what: "retry_caller_trace", a: 0, b: trace_fold(&ctx.trace_context) });
                         let r = retry.call(ctx, 42u64).await;
                         sim_t.log(EvKind::Note { what: "retry_done", a: 0, b: result_code(&r) });
                         let ptrs = be.ptrs.borrow();
@@ -480,14 +504,19 @@ pub fn check(scn: &StubScn, log: &[Ev], sim: &Sim) -> Vec<Violation> {
                 }
             }
         }
-        StubScn::Retry { results, max_attempts, retry_ok_below, .. } => {
+        StubScn::Retry { results, max_attempts, retry_ok_below, abandon_first, .. } => {
+            // only the call issued after an abandoned one (if any) is judged; the abandoned
+            // call used up the backend's first scripted result
+            let start = log.iter().position(|e| matches!(&e.kind, EvKind::Note { what: "retry_first_abandoned", .. })).map(|i| i + 1).unwrap_or(0);
+            let log = &log[start..];
+            let off = if *abandon_first { 1usize } else { 0 };
             // reference model of the retry loop
             let mut want_attempts = 0usize;
             let want_last;
             loop {
                 want_attempts += 1;
-                let kind = results.get(want_attempts - 1).copied().unwrap_or(0);
-                let r = scripted(kind, want_attempts);
+                let kind = results.get(want_attempts - 1 + off).copied().unwrap_or(0);
+                let r = scripted(kind, want_attempts + off);
                 let again = match &r {
                     Err(_) => (want_attempts as u32) < *max_attempts,
                     Ok(_) => (want_attempts as u32) < *retry_ok_below,
@@ -529,6 +558,7 @@ pub fn check(scn: &StubScn, log: &[Ev], sim: &Sim) -> Vec<Violation> {
                     }
                     EvKind::Note { what: "retry_ctx_trace", a, b } if Some(*b) != caller_trace => {
                         v.push(viol("retry-context-changed", &["trace"], format!("attempt {a} was issued with another trace id")));
+                        v.push(Violation { prop: "C18", rule: "trace-id-changed".to_string(), tags: vec!["retry".to_string()], detail: format!("retry attempt {a} was issued with a trace id other than the caller's") });
                     }
                     _ => {}
                 }
